@@ -146,10 +146,10 @@ theorem handle_out (app : App) (s : Slots) (r : Req) (hp : r.pathOK = true) :
 /-! ### a 500 error object in `_cast` -/
 
 theorem step_run (app : App) (fw : Bool) (cnt : Nat) (s : Slots) (out : Out)
-    (h : cnt + 1 ≤ Gen.castMaxLoops) :
+    (h : cnt + 1 ≤ Gen.wsgiCastMaxLoops) :
     step app fw (.run cnt s out) = castOut app fw (cnt + 1) s out := by
   unfold step
-  have : ¬ (cnt + 1 > Gen.castMaxLoops) := by omega
+  have : ¬ (cnt + 1 > Gen.wsgiCastMaxLoops) := by omega
   simp only [this, if_false]
 
 def Cfg.doneWith (c : Cfg) (code : Nat) (line : Str) : Prop :=
@@ -167,7 +167,7 @@ theorem finishBytes_doneWith (s : Slots) (b : Bytes) :
 /-- an error object whose status has no custom handler ends the loop two iterations later with
 that status on the response object -/
 theorem runLoop_error (app : App) (fw : Bool) (n cnt : Nat) (s : Slots) (r : RState) (body : Out)
-    (hcnt : cnt + 2 ≤ Gen.castMaxLoops) (hno : errHandlerFor app r.code = none) :
+    (hcnt : cnt + 2 ≤ Gen.wsgiCastMaxLoops) (hno : errHandlerFor app r.code = none) :
     (runLoop app fw (n + 2) (.run cnt s (.resp true r body))).doneWith r.code r.line := by
   rw [runLoop_succ_run, step_run app fw cnt s _ (by omega)]
   have h1 : castOut app fw (cnt + 1) s (.resp true r body) =
@@ -188,7 +188,7 @@ theorem runLoop_error (app : App) (fw : Bool) (n cnt : Nat) (s : Slots) (r : RSt
     | done s' res => rw [runLoop_done]; exact this
     | run _ _ _ => exact this.elim
 
-theorem maxLoops_ge : 3 ≤ Gen.castMaxLoops := by decide
+theorem maxLoops_ge : 3 ≤ Gen.wsgiCastMaxLoops := by decide
 
 /-- `_cast` of a 500 error object without a custom 500 handler -/
 theorem cast_error500 (app : App) (fw : Bool) (s : Slots) (body : Str) (hdrs : Hdrs)
@@ -196,7 +196,7 @@ theorem cast_error500 (app : App) (fw : Bool) (s : Slots) (body : Str) (hdrs : H
     ∃ s' items cl, cast app fw s (mkError 500 body hdrs) = (s', .body items none cl) ∧
       s'.resp.code = 500 ∧ s'.resp.line = lineOfCode 500 := by
   have hm := maxLoops_ge
-  obtain ⟨k, hk⟩ : ∃ k, Gen.castMaxLoops + 1 = k + 2 := ⟨Gen.castMaxLoops - 1, by omega⟩
+  obtain ⟨k, hk⟩ : ∃ k, Gen.wsgiCastMaxLoops + 1 = k + 2 := ⟨Gen.wsgiCastMaxLoops - 1, by omega⟩
   have := runLoop_error app fw k 0 s { code := 500, line := lineOfCode 500, headers := hdrs, cookies := [] }
     (.text body) (by omega) hno
   unfold cast mkError
@@ -220,7 +220,7 @@ theorem cast_first_next_raises (app : App) (fw : Bool) (s : Slots) (id : Nat) (h
     ∃ s' its cl, cast app fw s (.iter id hc items) = (s', .body its none cl) ∧
       s'.resp.code = 500 ∧ s'.resp.line = lineOfCode 500 := by
   have hm := maxLoops_ge
-  obtain ⟨k, hk⟩ : ∃ k, Gen.castMaxLoops + 1 = (k + 2) + 1 := ⟨Gen.castMaxLoops - 2, by omega⟩
+  obtain ⟨k, hk⟩ : ∃ k, Gen.wsgiCastMaxLoops + 1 = (k + 2) + 1 := ⟨Gen.wsgiCastMaxLoops - 2, by omega⟩
   have := runLoop_error app fw k 1 s { code := 500, line := lineOfCode 500, headers := [], cookies := [] }
     (.text "Unhandled exception".toList) (by omega) hno
   unfold cast
